@@ -89,6 +89,38 @@ def _mul(a, b):
     return r
 
 
+def _add(x, y):
+    lo = x.lo + y.lo if not (abs(x.lo) == INF or abs(y.lo) == INF) else (-INF if -INF in (x.lo, y.lo) else INF)
+    hi = x.hi + y.hi if not (abs(x.hi) == INF or abs(y.hi) == INF) else (INF if INF in (x.hi, y.hi) else -INF)
+    r = Iv(lo, hi, x.lo_open or y.lo_open, x.hi_open or y.hi_open)
+    if x.nonneg() and y.nonneg() and (x.positive() or y.positive()):
+        r.nz = True
+        if r.lo == 0:
+            r.lo_open = True
+    if x.hi <= 0 and y.hi <= 0 and ((x.hi < 0 or x.hi_open or x.nz) or (y.hi < 0 or y.hi_open or y.nz)):
+        r.nz = True
+        if r.hi == 0:
+            r.hi_open = True
+    if (lo > 0 or (lo == 0 and r.lo_open)) or (hi < 0 or (hi == 0 and r.hi_open)):
+        r.nz = True
+    return r
+
+
+def cos_of_const_over_int_nonzero(c, lb):
+    """Is cos(c / n) != 0 for every integer n >= lb (lb >= 1)?  For n > 2c/pi the argument lies in (0, pi/2) where cos > 0;
+    the finitely many smaller n are evaluated (closed-form constant, margin 1e-6)."""
+    if lb < 1 or c <= 0:
+        return False
+    n = lb
+    while c / n >= math.pi / 2 - 1e-6:
+        if abs(math.cos(c / n)) < 1e-6:
+            return False
+        n += 1
+        if n > 10000:
+            return False
+    return True
+
+
 class FSign:
     def __init__(self, facts_conds, int_lb=None, loops=None, trip_pos=None):
         """facts_conds: list of condition terms known to hold. int_lb(term) -> largest small k with term >= k."""
@@ -120,6 +152,35 @@ class FSign:
                     extra.append(rest[0])
         for c in list(facts_conds) + extra:
             self.learn(c, True)
+        # open disjunctions (for case splitting by the consumer)
+        self.disjunctions = []
+        for c in known:
+            if c[0] == 'op' and c[1] == 'not' and c[2][0][0] == 'op' and c[2][0][1] == 'and':
+                alts = [neg_cond(x) for x in c[2][0][2] if x not in known]
+                if len(alts) > 1:
+                    self.disjunctions.append(alts)
+            if c[0] == 'op' and c[1] == 'or':
+                alts = [x for x in c[2] if neg_cond(x) not in known]
+                if len(alts) > 1:
+                    self.disjunctions.append(alts)
+        self._busy = set()
+
+    def cases(self, limit=8):
+        """FSign instances, one per combination of the open disjunctions' alternatives (at most `limit`), which together
+        cover every state the facts admit."""
+        import itertools
+        ds = self.disjunctions[:3]
+        combos = list(itertools.product(*ds)) if ds else []
+        if not combos or len(combos) > limit:
+            return [self]
+        out = []
+        for combo in combos:
+            f = FSign([], self.int_lb, self.loops, self.trip_pos)
+            f.facts = dict(self.facts)
+            for c in combo:
+                f.learn(c, True)
+            out.append(f)
+        return out
 
     def fact(self, t, iv):
         cur = self.facts.get(t)
@@ -185,6 +246,26 @@ class FSign:
         f = self.facts.get(t)
         if f is not None:
             r = r.meet(f)
+        busy = getattr(self, '_busy', None)
+        if busy is not None and t not in busy and len(busy) < 4:
+            busy.add(t)
+            try:
+                if t[0] == 'op' and t[1] == 'sub':
+                    # transitivity:  x - y = (x - z) + (z - y)
+                    x, y = t[2]
+                    for key, f1 in list(self.facts.items()):
+                        if key[0] == 'op' and key[1] == 'sub' and key[2][0] == x and key[2][1] != y:
+                            z = key[2][1]
+                            f2 = self.facts.get(('op', 'sub', (z, y)))
+                            if f2 is not None:
+                                r = r.meet(_add(f1, f2))
+                else:
+                    # x = (x - y) + y
+                    for key, f1 in list(self.facts.items()):
+                        if key[0] == 'op' and key[1] == 'sub' and key[2][0] == t and key[2][1][0] != 'lit':
+                            r = r.meet(_add(f1, self.rng(key[2][1])))
+            finally:
+                busy.discard(t)
         self.memo[k] = (t, r)
         return r
 
@@ -269,6 +350,12 @@ class FSign:
                         r.lo_open = True
                     return r
                 return TOPI
+            if n == 'cos' and a[0][0] == 'op' and a[0][1] == 'div' and a[0][2][0][0] == 'lit' and a[0][2][1][0] == 'op' and a[0][2][1][1] == 'from_int':
+                cst = a[0][2][0][1]
+                lb = self.int_lb(a[0][2][1][2][0])
+                if isinstance(cst, (int, float)) and cos_of_const_over_int_nonzero(float(cst), lb):
+                    return Iv(-1.0, 1.0, nz=True)
+                return Iv(-1.0, 1.0)
             if n in ('tanh', 'cos', 'sin'):
                 return Iv(-1.0, 1.0)
             if n == 'clamp' and len(a) == 3:
@@ -291,9 +378,11 @@ class FSign:
         if k == 'phi':
             fa = FSign([], self.int_lb, self.loops, self.trip_pos)
             fa.facts = dict(self.facts)
+            fa._busy = self._busy
             fa.learn(t[1], True)
             fb = FSign([], self.int_lb, self.loops, self.trip_pos)
             fb.facts = dict(self.facts)
+            fb._busy = self._busy
             fb.learn(t[1], False)
             return fa.rng(t[2]).hull(fb.rng(t[3]))
         if k in ('some', 'payload'):
